@@ -565,6 +565,16 @@ func (g *c14blockGen) spend() *wire.MsgTx {
 		tx.AddTxIn(wire.NewTxIn(wire.NewOutPoint(&h, idx), r.Bytes(r.Intn(20))))
 	}
 	g.outputs(tx, r.Intn(5))
+	if len(tx.TxIn) > 0 && r.Chance(1, 12) {
+		// an output script that is byte-identical to the serialisation of an
+		// outpoint spent in this block: the entry set is a set of byte
+		// strings, so it is one entry, not two
+		in := tx.TxIn[r.Intn(len(tx.TxIn))]
+		op := make([]byte, 36)
+		copy(op, in.PreviousOutPoint.Hash[:])
+		binary.LittleEndian.PutUint32(op[32:], in.PreviousOutPoint.Index)
+		tx.AddTxOut(&wire.TxOut{Value: 1, PkScript: op})
+	}
 	return tx
 }
 
